@@ -22,6 +22,16 @@ Proof.
     apply (IH (tl outs)). rewrite Ep. exact H.
 Qed.
 
+Lemma patch_loop_nonempty canp name cs outs n :
+  exists o, In (FxPatch name cs o) (snd (patch_loop canp name cs outs (S n))).
+Proof.
+  cbn [patch_loop]. destruct (if canp then match outs with o :: _ => o | [] => PFail end else PFail).
+  - eexists. left. reflexivity.
+  - destruct (patch_loop canp name cs (tl outs) n). eexists. left. reflexivity.
+  - destruct (patch_loop canp name cs (tl outs) n). eexists. left. reflexivity.
+  - destruct (patch_loop canp name cs (tl outs) n). eexists. left. reflexivity.
+Qed.
+
 (* C08 (a): a PATCH is only ever issued when the node as re-read under the lock shows no pod CIDRs,
    and it goes to the node being processed *)
 Theorem update_patches_only_unassigned canp apisame m name cs p reread outs m' r fx :
@@ -288,4 +298,83 @@ Proof.
       inversion Ho'; subst. split; [exists node; repeat split; assumption|]. split; [exact Hre|exact Hun].
   - inversion H; subst. destruct He as [He|[]]. discriminate He.
   - inversion H; subst. destruct He.
+Qed.
+
+(* ---------- C05 / C11: a refusal is reported ---------- *)
+Theorem refusal_is_reported po lab canp apisame held m node reread outs m' e fx :
+  n_cidrs node = [] ->
+  allocate_or_occupy po lab canp apisame held m node reread outs = (m', Err e, fx) ->
+  (forall nm cs o, ~ In (FxPatch nm cs o) fx) ->
+  In (FxEvent 1 (n_name node)) fx \/ e = ENotFound \/ exists n, reread = Some n /\ n_cidrs n <> [].
+Proof.
+  unfold allocate_or_occupy. intros Hc H Hnp. rewrite Hc in H.
+  destruct (prioritized_cidrs po lab held m node) as [m1 rp].
+  destruct rp as [[cs p]|e1|].
+  - destruct cs as [|c1 cs1]; [inversion H; subst; left; left; reflexivity|].
+    unfold update_cidrs_allocation in H. destruct reread as [n|].
+    + destruct ((length (n_cidrs n) =? length (c1 :: cs1))%nat && same_cidrs (n_cidrs n) (c1 :: cs1))%bool.
+      { destruct (get_entry m1 p); inversion H. }
+      destruct (n_cidrs n) eqn:En; [|right; right; exists n; split; [reflexivity|rewrite En; discriminate]].
+      exfalso.
+      destruct (patch_loop (canp (c1 :: cs1)) (n_name node) (c1 :: cs1) outs 3) as [ok fxp] eqn:Ep.
+      (* the patch loop always issues at least one PATCH *)
+      assert (Hsome : exists o, In (FxPatch (n_name node) (c1 :: cs1) o) fxp).
+      { pose proof (patch_loop_nonempty (canp (c1 :: cs1)) (n_name node) (c1 :: cs1) outs 2) as Hne. rewrite Ep in Hne. exact Hne. }
+      destruct Hsome as (o & Ho).
+      assert (Hin : In (FxPatch (n_name node) (c1 :: cs1) o) fx).
+      { destruct ok.
+        - destruct (get_entry m1 p); inversion H; subst; exact Ho.
+        - repeat match type of H with
+                 | context [if ?b then _ else _] => destruct b
+                 | context [match nth_error ?l ?k with _ => _ end] => destruct (nth_error l k) as [[]|]
+                 | context [match get_entry ?a ?b with _ => _ end] => destruct (get_entry a b)
+                 | context [let '(_, _) := release_in ?a ?b ?c in _] => destruct (release_in a b c)
+                 end; inversion H; subst; repeat (apply in_or_app; left); exact Ho. }
+      exact (Hnp _ _ _ Hin).
+    + destruct (release_in m1 p (c1 :: cs1)). inversion H; subst. right. left. reflexivity.
+  - inversion H; subst. left. left. reflexivity.
+  - inversion H.
+Qed.
+
+(* ---------- C10: handling the same object again adds nothing ---------- *)
+Theorem create_when_mapped_keeps_map m o term boot out k :
+  o_selkey o = Some k -> is_mapped m k (o_name o) = true ->
+  fst (fst (create_cluster_cidr m o term boot out)) = m.
+Proof.
+  intros Hk Hm. unfold create_cluster_cidr. rewrite Hk.
+  destruct (create_set o term) as [c|e|]; try reflexivity.
+  destruct (cc_v4 c), (cc_v6 c); try reflexivity; rewrite Hm;
+    destruct boot; try reflexivity; destruct (need_finalizer o); try reflexivity; destruct out; reflexivity.
+Qed.
+
+Lemma is_mapped_map_set m k c : is_mapped (map_set m k c) k (cc_name c) = true.
+Proof.
+  unfold is_mapped, map_set. destruct (find_key k m) as [l|] eqn:Ef.
+  - rewrite find_key_set_key_same. rewrite existsb_app. cbn. rewrite str_eqb_refl. rewrite Bool.orb_true_r. reflexivity.
+  - assert (H : forall m0, find_key k m0 = None -> find_key k (m0 ++ [(k, [c])]) = Some [c]).
+    { induction m0 as [|[k0 l0] m0 IH]; cbn; [rewrite str_eqb_refl; reflexivity|].
+      destruct (str_eqb k k0); [discriminate|exact IH]. }
+    rewrite (H m Ef). cbn. rewrite str_eqb_refl. reflexivity.
+Qed.
+
+Lemma create_set_name o term c : create_set o term = Ok c -> cc_name c = o_name o.
+Proof.
+  unfold create_set. destruct (mk_pool V4 (o_v4 o) (o_hb o)); try discriminate. destruct (mk_pool V6 (o_v6 o) (o_hb o)); try discriminate.
+  intros H. inversion H. reflexivity.
+Qed.
+
+(* after a successful handling the object is mapped; handling it again changes nothing *)
+Theorem reconcile_create_idempotent m o out1 out2 m1 fx1 :
+  reconcile_create m o out1 = (m1, Ok tt, fx1) -> need_finalizer o = false ->
+  reconcile_create m1 o out2 = (m1, Ok tt, []).
+Proof.
+  unfold reconcile_create. intros H Hn. rewrite Hn in *. cbn [orb] in *.
+  destruct (negb (is_mapped_obj m o)) eqn:Em.
+  - (* it was not mapped: it is now *)
+    unfold create_cluster_cidr in H. unfold is_mapped_obj in *. destruct (o_selkey o) as [k|] eqn:Ek; [|discriminate].
+    destruct (create_set o false) as [c|e|] eqn:Ec; try discriminate.
+    apply Bool.negb_true_iff in Em. rewrite Em in H. rewrite Hn in H.
+    destruct (cc_v4 c), (cc_v6 c); inversion H; subst;
+      rewrite <- (create_set_name _ _ _ Ec), is_mapped_map_set; reflexivity.
+  - inversion H; subst. rewrite Em. reflexivity.
 Qed.
